@@ -28,6 +28,17 @@ def main() -> None:
         rows.append(f"| {f.parent.name} | {m.get('property')} | {m.get('needs', '')} | {m.get('caught_by', '')} | {m.get('how_caught', '')} |")
     s = re.sub(r"(<!-- BEGIN seeded[^>]*-->).*?(<!-- END seeded -->)",
                lambda m: m.group(1) + "\n\n" + "\n".join(rows) + "\n\n" + m.group(2), s, flags=re.S)
+    # findings table
+    frows = ["| property | status | signature | commit | what |", "|---|---|---|---|---|"]
+    files = [VERIF / "known_findings.json"] + sorted((VERIF / "known_findings.d").glob("*.json"))
+    for f in files:
+        if not f.exists():
+            continue
+        for e in json.loads(f.read_text())["findings"]:
+            what = " ".join(str(e.get("what", "")).split()).replace("|", "\\|")
+            frows.append(f"| {e['property']} | {e['status']} | {e.get('signature', '')} | {e.get('commit', '')} | {what[:400]} |")
+    s = re.sub(r"(<!-- BEGIN findings[^>]*-->).*?(<!-- END findings -->)",
+               lambda m: m.group(1) + "\n\n" + "\n".join(frows) + "\n\n" + m.group(2), s, flags=re.S)
     p.write_text(s)
 
 
